@@ -25,7 +25,6 @@ import (
 	"testing"
 	"time"
 
-	"github.com/daeuniverse/dae/common/consts"
 	dnsmessage "github.com/miekg/dns"
 )
 
@@ -200,7 +199,7 @@ func c08rRun(cs c08rCase) (res c08rResult) {
 	}
 	if cs.Flag0 {
 		// a first stale hit claims the refresh, through the real code, before any thread exists
-		if resp, refresh := w.ctl.LookupDnsRespCache_(query(), key, false); resp == nil || !refresh {
+		if resp, cl := c08LookupClaim(w.ctl, query(), key); resp == nil || cl == nil {
 			res.Err = "sequential stale hit did not claim the refresh"
 			return
 		}
@@ -222,13 +221,14 @@ func c08rRun(cs c08rCase) (res c08rResult) {
 		var ok bool
 		if kind == "L" {
 			th, ok = sched.spawn(true, false, func(th *c08rThread) {
-				resp, refresh := w.ctl.LookupDnsRespCache_(query(), key, false)
-				th.served, th.refresh = resp != nil, refresh
+				resp, cl := c08LookupClaim(w.ctl, query(), key)
+				th.served, th.refresh = resp != nil, cl != nil
 			})
 		} else if strings.HasPrefix(kind, "T:") {
 			outcome, id := kind[2:], uint32(100+ti)
 			th, ok = sched.spawn(true, true, func(th *c08rThread) {
-				resp, refresh := w.ctl.LookupDnsRespCache_(query(), key, false)
+				resp, cl := c08LookupClaim(w.ctl, query(), key)
+				refresh := cl != nil
 				th.served, th.refresh = resp != nil, refresh
 				if !refresh {
 					return
@@ -249,11 +249,11 @@ func c08rRun(cs c08rCase) (res c08rResult) {
 					_ = w.ctl.NormalizeAndCacheDnsResp_(m, key) // the insert path, as dialSend does with the upstream's answer
 				}
 				inflight.Add(-1)
-				w.ctl.backgroundRefresh(key, &dnsmessage.Msg{}, nil, consts.DnsRequestOutboundIndex_Reject, nil)
+				c08BackgroundRefresh(w.ctl, cl, key)
 			})
 		} else {
 			th, ok = sched.spawn(false, false, func(th *c08rThread) {
-				w.ctl.backgroundRefresh(key, &dnsmessage.Msg{}, nil, consts.DnsRequestOutboundIndex_Reject, nil)
+				c08BackgroundRefresh(w.ctl, entry, key) // completion of a refresh that had claimed the original entry
 			})
 		}
 		threads = append(threads, th)
